@@ -50,9 +50,9 @@ def rows_for(s, rng, quick):
     return rows
 
 
-def roundtrip(s, layout, batch):
+def roundtrip(s, layout, batch, pair=None):
     """Returns list of (bits, out, nsym, raised) per row."""
-    m, d = s.mod(), s.dem()
+    m, d = pair if pair is not None else (s.mod(), s.dem())
     for o in (m, d):
         if hasattr(o, "reset_state"):
             o.reset_state()
@@ -101,6 +101,7 @@ def run(run):
     evs, owner = [], []
     tid = 0
     rejected3d = set()
+    rejected_forms = set()
     for s in cat:
         try:
             b = s.b
@@ -133,10 +134,30 @@ def run(run):
                         evs.append({"ev": "RoundTrip", "tid": tid, "kind": s.kind, "bits": bits, "out": out, "nsym": nsym, "raised": raised, "error": err})
                         owner.append((s, layout, step))
                         run.case((s.name, layout, step, tuple(bits[:64]), len(bits)), nontrivial=len(bits) >= 2 * b)
+            # the same pair after the nn.Module protocol has been applied to both objects (deep copy, pickle round trip, state_dict into a
+            # fresh object, eval mode, .double()): a row whose answer differs from the pair's own is logged and judged like any other
+            from .core import module_forms
+            probe = next(((lay, bt) for (lay, bt) in rws if lay == "2d"), rws[0] if rws else None)
+            if probe is not None:
+                base = roundtrip(s, probe[0], probe[1])
+                fm, fd = dict(module_forms(s.mk_mod(), mk=s.mk_mod)), dict(module_forms(s.mk_dem(), mk=s.mk_dem))
+                for kind in fm:
+                    if kind not in fd:
+                        continue
+                    for (b0, (bits, out, nsym, raised, err)) in zip(base, roundtrip(s, probe[0], probe[1], pair=(fm[kind], fd[kind]))):
+                        run.case((s.name, probe[0], kind, tuple(bits[:64]), len(bits)), nontrivial=len(bits) >= 2 * b)
+                        if raised and not b0[3]:
+                            rejected_forms.add((s.name, kind))      # a converted object may reject the float32 test input; only a different answer counts
+                            continue
+                        if (out, raised) != (b0[1], b0[3]):
+                            tid += 1
+                            evs.append({"ev": "RoundTrip", "tid": tid, "kind": s.kind, "bits": bits, "out": out, "nsym": nsym, "raised": raised, "error": err, "form": kind})
+                            owner.append((s, probe[0], kind))
         except Exception as ex:
             run.violate(s.component, "construction_raised", s.config(), {"scheme": s.name, "error": repr(ex)[:200]})
     run.log("%d schemes, %d events" % (len(cat), len(evs)))
     run.extra["schemes_rejecting_rank_3_input"] = sorted(rejected3d)
+    run.extra["module_forms_rejecting_the_input"] = sorted("%s after %s" % x for x in rejected_forms)
     mism = tv.validate(run, "Trace_Modem", evs, name="TV C05", timeout=3000, heap="12g")
     seen = set()
     for (t, line, clause) in mism:
